@@ -194,6 +194,32 @@ fn case1<T: Elem>(case: u64, which: u64, args: &Args, ev: &mut Ev) {
                 mon.expect(&name_into, &what, &interp.many_into(&qa, buf.view_mut()), false, "batch-one-bad");
             }
         }
+        // large batches (hundreds to thousands of queries): one bad element at the first, a middle
+        // and each of the last 9 positions; sizes around powers of two and not multiples of 8
+        if case % 4 == 0 && spec.n_lanes() <= 4 {
+            let sizes = [255usize, 256, 257, 1000, 1001, 1023, 1025, 4097, 5003];
+            let size = sizes[(case / 4) as usize % sizes.len()];
+            for (kind, shape) in [(QKind::S1, vec![size]), (QKind::Dyn, vec![size]), (QKind::S2, vec![size / 7, 7])] {
+                let n: usize = shape.iter().product();
+                let vals: Vec<T> = (0..n).map(|i| good[i % good.len()]).collect();
+                let qa = Query::from_vec(vals.clone(), &shape, kind);
+                let name = format!("interp_array[{}] large", kind.name());
+                mon.expect(&name, &format!("all-good batch of {n}"), &interp.many(&qa), true, "large-batch-all-good");
+                let mut positions: Vec<usize> = vec![0, n / 2];
+                positions.extend(n.saturating_sub(9)..n);
+                for pos in positions {
+                    let b = bad[(pos + case as usize) % bad.len()];
+                    if b.v != b.v {
+                        continue; // NaN is covered by the small batches
+                    }
+                    let mut v2 = vals.clone();
+                    v2[pos] = b.v;
+                    let qa = Query::from_vec(v2, &shape, kind);
+                    let what = format!("batch of {n} ({:?}) with {:?} ({}) at position {}", shape, b.v, b.class, pos);
+                    mon.expect(&name, &what, &interp.many(&qa), false, "large-batch-one-bad");
+                }
+            }
+        }
     });
 }
 
